@@ -37,6 +37,11 @@ def request_lambda(L, host, t):
     if k >= len(uniq):
         raise InfraError('contract no longer attached: lambda #%d not found in %s (%d lambdas)' % (k, t['lambda_in'], len(uniq)))
     lam = uniq[k]
+    return request_lambda_node(L, lam, t['cname'], t)
+
+
+def request_lambda_node(L, lam, cname, t=None):
+    t = t or {}
     inner = lam['inner']
     rec = inner[0]
     call = [c for c in rec['inner'] if c.get('kind') == 'CXXMethodDecl' and c.get('name') == 'operator()']
@@ -60,9 +65,11 @@ def request_lambda(L, host, t):
     inits = [c for c in inner[1:] if c.get('kind') != 'CompoundStmt']
     if len(fields) != len(inits):
         raise Unsupported('lambda capture list shape at %s' % where(lam))
-    cname = t['cname']
     f = L.request_fn(call, cname, kind='lambda')
-    f.closure_ty = cname + '_closure'
+    # the struct carries the name clang prints for the closure type, so that variables and fields of that type
+    # (local closure objects, `F& f` members) and the lowered call operator agree; <cname>_closure is an alias
+    tq = lam.get('type', {}).get('qualType', '')
+    f.closure_ty = mangle(tq) if tq.startswith('(lambda at ') else cname + '_closure'
     lines = []
     for fd, ini in zip(fields, inits):
         ft = L.ty(fd['type'])
@@ -85,8 +92,10 @@ def request_lambda(L, host, t):
         else:
             lines.append('  %s;' % L.cdecl(ft, vname))
             f.captures[vid] = ('self->' + vname, False)
-    L.rec_defs[f.closure_ty] = 'struct %s {\n%s\n};' % (f.closure_ty, '\n'.join(lines) or '  char _empty;')
-    L.rec_order.append(f.closure_ty)
+    alias = '' if f.closure_ty == cname + '_closure' else '#define %s_closure %s\n' % (cname, f.closure_ty)
+    L.rec_defs[f.closure_ty] = alias + 'struct %s {\n%s\n};' % (f.closure_ty, '\n'.join(lines) or '  char _empty;')
+    if f.closure_ty not in L.rec_order:
+        L.rec_order.append(f.closure_ty)
     L.rec_fields[f.closure_ty] = []
     L.note('lambda at %s lowered to %s(struct %s*, ...)' % (where(lam), cname, f.closure_ty))
     return f
